@@ -6,7 +6,7 @@
      generated_module.rs, lib.rs (operation choice).
    The model mirrors the code's push-order so that the emitted item list is predicted exactly.
    MODEL ONLY. *)
-From GC Require Import Base Rust TypeExpr Heck Strs Naming Enums Schema Query Attrs.
+From GC Require Import Base Rust TypeExpr Heck Strs Naming Enums Schema Query Attrs Dfs.
 From GC.Gen Require Import Keywords.
 
 Record opts := mkOpts {
@@ -46,96 +46,53 @@ Definition serde_path_str (o : opts) : string :=
   match o_serde_path o with Some p => path_tokens_string p | None => ":: serde" end.
 
 (* ---------- fragment_is_recursive (query/fragments.rs + Selection::contains_fragment, after the
-   repair): DFS that follows the spreads of other fragments, each visited once *)
+   repair): the visited-set DFS of Dfs.v over the graph "fragment F spreads fragment H somewhere in
+   its selection tree" (spreads listed in the order the code meets them) *)
+Fixpoint spreads (x : rsel) : list string :=
+  match x with
+  | RSpread n => [n]
+  | RField _ _ sub | RInline _ sub => flat_map spreads sub
+  | RTypename => []
+  end.
+
+Fixpoint sel_depth (x : rsel) : nat :=
+  match x with
+  | RField _ _ sub | RInline _ sub => S (fold_right (fun y acc => Nat.max (sel_depth y) acc) 0 sub)
+  | _ => 1
+  end.
+Definition sels_depth (l : list rsel) : nat := fold_right (fun y acc => Nat.max (sel_depth y) acc) 0 l.
+
 Section Frags.
   Variable frs : list rfrag.
 
-  Fixpoint reaches (fuel : nat) (target : string) (visited : list string) (l : list rsel) {struct fuel}
-    : option (bool * list string) :=
-    match fuel with
-    | O => None
-    | S f =>
-        (fix walk (l : list rsel) (visited : list string) : option (bool * list string) :=
-           match l with
-           | [] => Some (false, visited)
-           | x :: r =>
-               let here :=
-                 match x with
-                 | RSpread n =>
-                     if String.eqb n target then Some (true, visited)
-                     else if mem_str n visited then Some (false, visited)
-                     else match find_frag frs n with
-                          | Some fr => reaches f target (n :: visited) (rf_sel fr)
-                          | None => Some (false, n :: visited)
-                          end
-                 | RField _ _ sub | RInline _ sub => reaches f target visited sub
-                 | RTypename => Some (false, visited)
-                 end in
-               match here with
-               | None => None
-               | Some (true, v) => Some (true, v)
-               | Some (false, v) => walk r v
-               end
-           end) l visited
-    end.
+  Definition frag_succs (n : string) : list string :=
+    match find_frag frs n with Some fr => flat_map spreads (rf_sel fr) | None => [] end.
 
-  Fixpoint sel_depth (x : rsel) : nat :=
-    match x with
-    | RField _ _ sub | RInline _ sub => S (fold_right (fun y acc => Nat.max (sel_depth y) acc) 0 sub)
-    | _ => 1
-    end.
-  Definition sels_depth (l : list rsel) : nat := fold_right (fun y acc => Nat.max (sel_depth y) acc) 0 l.
   Definition doc_depth : nat := fold_right (fun fr acc => Nat.max (sels_depth (rf_sel fr)) acc) 0 frs.
 
-  Definition reach_fuel : nat := S ((S (List.length frs)) * (S (S doc_depth))).
-
   Definition fragment_is_recursive (n : string) : bool :=
-    match find_frag frs n with
-    | Some fr => match reaches reach_fuel n [] (rf_sel fr) with Some (b, _) => b | None => false end
-    | None => false
-    end.
+    match dfs frag_succs (S (List.length frs)) n [] n with Some (b, _) => b | None => false end.
 End Frags.
 
-(* ---------- input_is_recursive_without_indirection (schema.rs:398-440): visited-set DFS over
-   non-list input members *)
+(* ---------- input_is_recursive_without_indirection (schema.rs:398-440): the same DFS over the
+   graph "input A has a member of input type B that is not inside a list" *)
 Section InputRec.
   Variable s : aschema.
 
-  Fixpoint contains_input (fuel : nat) (target : string) (visited : list string) (cur : string) {struct fuel}
-    : option (bool * list string) :=
-    match fuel with
-    | O => None
-    | S f =>
-        match find_input s cur with
-        | None => Some (false, visited)
-        | Some inp =>
-            (fix walk (fs : list (string * gtype)) (visited : list string) : option (bool * list string) :=
-               match fs with
-               | [] => Some (false, visited)
-               | (_, ty) :: r =>
-                   if quals_indirected (quals_sdl ty) then walk r visited
-                   else
-                     let tn := gname ty in
-                     match find_kind_sdl s tn with
-                     | Some KInput =>
-                         if String.eqb tn target then Some (true, visited)
-                         else if mem_str tn visited then walk r visited
-                         else match contains_input f target visited tn with
-                              | None => None
-                              | Some (true, v) => Some (true, v)
-                              | Some (false, v) => walk r v
-                              end
-                     | _ => walk r visited
-                     end
-               end) (ai_fields inp) (cur :: visited)
-        end
+  Definition input_succs (n : string) : list string :=
+    match find_input s n with
+    | None => []
+    | Some inp =>
+        flat_map (fun fld =>
+          if quals_indirected (quals_sdl (snd fld)) then []
+          else match find_kind_sdl s (gname (snd fld)) with
+               | Some KInput => [gname (snd fld)]
+               | _ => []
+               end) (ai_fields inp)
     end.
 
   Definition input_is_recursive (n : string) : bool :=
-    match contains_input (S (List.length (a_inputs s))) n [] n with
-    | Some (b, _) => b
-    | None => false
-    end.
+    match dfs input_succs (S (List.length (a_inputs s))) n [] n with Some (b, _) => b | None => false end.
 End InputRec.
 
 (* ---------- ExpandedField::render *)
